@@ -246,6 +246,8 @@ pub struct Sched {
     pub read_out: Prof,
     pub queries: bool,
     pub stop_on_boundary: bool,
+    /// explicit arrival points (offsets into the driver's server slice); empty = use `arrive`
+    pub cuts: Vec<usize>,
 }
 
 impl Sched {
@@ -259,6 +261,7 @@ impl Sched {
             read_out: Prof::Big,
             queries: false,
             stop_on_boundary: false,
+            cuts: vec![],
         }
     }
     pub fn random(rng: &mut Rng, small_payloads: bool) -> Sched {
@@ -276,6 +279,7 @@ impl Sched {
             queries: rng.chance(1, 2),
             stop_on_boundary: rng.chance(1, 3),
             rng: rng.fork(),
+            cuts: vec![],
         }
     }
     pub fn describe(&self) -> String {
@@ -438,6 +442,12 @@ pub struct Driver<'a> {
     pub chunk_reads: Vec<(usize, usize)>,
     pub max_steps: usize,
     pub finished_body_write_calls: usize,
+    /// every look while awaiting 100: (window length offered, consumed, can_keep_await_100 afterwards)
+    pub await_log: Vec<(usize, usize, bool)>,
+    /// every try_response call: (window length offered, consumed, status if a response came back)
+    pub response_log: Vec<(usize, usize, Option<u16>)>,
+    /// stream offset at which the response body started
+    pub body_start: usize,
 }
 
 impl<'a> Driver<'a> {
@@ -472,6 +482,9 @@ impl<'a> Driver<'a> {
             chunk_reads: vec![],
             max_steps,
             finished_body_write_calls: 0,
+            await_log: vec![],
+            response_log: vec![],
+            body_start: 0,
         }
     }
 
@@ -483,6 +496,15 @@ impl<'a> Driver<'a> {
     }
 
     fn arrive(&mut self, hint: usize) {
+        if !self.sched.cuts.is_empty() {
+            // explicit cut list: the next arrival ends at the next cut point (or the end of the stream)
+            let window = self.arrived - self.consumed;
+            if self.stall > 0 || window == 0 || self.arrived == 0 {
+                let next = self.sched.cuts.iter().copied().find(|c| *c > self.arrived).unwrap_or(self.server.len());
+                self.arrived = next.min(self.server.len());
+            }
+            return;
+        }
         let remaining = self.server.len() - self.arrived;
         let window = self.arrived - self.consumed;
         let mut n = self.sched.arrive.arrival(&mut self.sched.rng, remaining, hint);
@@ -636,6 +658,7 @@ impl<'a> Driver<'a> {
                                 err: format!("consumed {} of {} offered", n, window.len()),
                             };
                         }
+                        self.await_log.push((window.len(), n, f.can_keep_await_100()));
                         self.consumed += n;
                         self.consumed_in_await += n;
                         if n == 0 {
@@ -778,7 +801,9 @@ impl<'a> Driver<'a> {
                                 err: format!("consumed {} of {} offered", n, window.len()),
                             };
                         }
+                        self.response_log.push((window.len(), n, resp.as_ref().map(|r| r.status().as_u16())));
                         self.consumed += n;
+                        self.body_start = self.consumed;
                         if n == 0 && resp.is_none() {
                             self.stall += 1;
                         } else {
